@@ -59,6 +59,14 @@ type target struct {
 	Inline []string          // same-package functions whose bodies are inlined at their call sites (arguments must be the
 	// caller's variables of the same names)
 	Ctors map[string]ctor // constructors of *base.TokenResult: the result becomes a (tag, value) pair (ext_hotspot.go)
+	// effects.go: functions whose result includes the sequence of effects they perform
+	Acts     map[string]act  // call text or callee text -> action recorded in the result's trace
+	SeqHints map[string]bool // hint keys that are reads of shared state: the k-th evaluation on a path is parameter <Var>_<k>
+	LoopVars map[string]hint // variable assigned by a range loop -> parameter that summarises the loop's result for it
+	Effects  []string        // further statement prefixes that are calls for effect only (skipped), e.g. metric exporters
+	// loopbody.go: one iteration of a loop as a step function
+	LoopBody  int               // N >= 1: translate the prologue + the body of the N-th top-level for / range statement
+	RangeVars map[string]string // Go types of the range variables of that loop (name -> type text)
 }
 
 var targets = []target{
@@ -380,6 +388,9 @@ type tr struct {
 	results  []string          // named results
 	resTypes []string
 	fresh    int
+	noTrace  bool     // effects.go: translating an inlined callee (no action trace of its own)
+	loop     *loopCtx // loopbody.go: set for a LoopBody target
+	pending  []string // effects.go: let-bindings to be placed in front of the statement being executed
 }
 
 var coqKeywords = map[string]bool{"end": true, "at": true, "in": true, "as": true, "fun": true, "return": true, "match": true,
@@ -504,7 +515,7 @@ func (x *tr) unify(a, b val) (val, val, string) {
 func (x *tr) expr(e ast.Expr) val {
 	s := src(x.p.fset, e)
 	if h, ok := x.t.Hints[s]; ok {
-		return x.param(h.Var, h.Typ)
+		return x.hintParam(s, h)
 	}
 	switch e := e.(type) {
 	case *ast.ParenExpr:
@@ -604,6 +615,9 @@ func (x *tr) expr(e ast.Expr) val {
 func (x *tr) binary(e *ast.BinaryExpr) val {
 	switch e.Op {
 	case token.LAND, token.LOR:
+		if x.containsAct(e.Y) {
+			fail("right operand of %s performs an action outside an if condition", e.Op)
+		}
 		a, b := x.expr(e.X), x.expr(e.Y)
 		if a.typ != "bool" || b.typ != "bool" {
 			fail("boolean operator on non-bool")
@@ -613,6 +627,9 @@ func (x *tr) binary(e *ast.BinaryExpr) val {
 			op = "orb"
 		}
 		return val{coq: "(" + op + " " + a.coq + " " + b.coq + ")", typ: "bool"}
+	}
+	if v, ok := x.nilTest(e); ok {
+		return v
 	}
 	ra, rb := x.expr(e.X), x.expr(e.Y)
 	if ra.typ == "untyped-int" && rb.typ == "untyped-int" {
@@ -760,6 +777,9 @@ func (x *tr) call(e *ast.CallExpr) val {
 			}
 		}
 	}
+	if v, ok := x.actCall(e); ok {
+		return v
+	}
 	if g, ok := x.t.Calls[fn]; ok {
 		callee := x.p.funcs[fn]
 		if callee == nil {
@@ -895,17 +915,20 @@ func (x *tr) inline(ce *ast.CallExpr) (val, bool) {
 	default:
 		return val{}, false
 	}
+	callee := x.p.funcs[name]
+	if callee == nil && recvArg != nil {
+		name, callee = x.p.promotedMethod(name) // method of an embedded struct (effects.go)
+	}
 	allowed := false
 	for _, n := range x.t.Inline {
 		if n == name {
 			allowed = true
 		}
 	}
-	callee := x.p.funcs[name]
 	if !allowed || callee == nil || callee.Body == nil {
 		return val{}, false
 	}
-	y := &tr{root: x.root, p: x.p, t: x.t, params: x.params, vars: map[string]string{}, alias: map[string]string{}}
+	y := &tr{root: x.root, p: x.p, t: x.t, params: x.params, vars: map[string]string{}, alias: map[string]string{}, noTrace: true}
 	pre := ""
 	bind := func(pname string, ptype ast.Expr, arg ast.Expr) {
 		pt := y.typeOfExpr(ptype)
@@ -965,7 +988,7 @@ func (x *tr) inline(ce *ast.CallExpr) (val, bool) {
 }
 
 func isEffectCall(s string) bool {
-	for _, p := range []string{"vhook.Yield(", "logging.", "logger."} {
+	for _, p := range []string{"vhook.Yield(", "logging.", "logger.", "runtime.Gosched("} {
 		if strings.HasPrefix(s, p) {
 			return true
 		}
@@ -975,16 +998,22 @@ func isEffectCall(s string) bool {
 
 // exec returns the Gallina term computing the function's result when `stmts` followed by the
 // continuation stack `rest` is executed.
-func (x *tr) exec(stmts []ast.Stmt, rest [][]ast.Stmt) string {
+func (x *tr) exec1(stmts []ast.Stmt, rest [][]ast.Stmt) string { // called through exec (effects.go)
 	if len(stmts) == 0 {
 		if len(rest) == 0 {
+			if x.loop != nil { // end of the loop body (loopbody.go)
+				return x.loopContinue()
+			}
 			// fell off the end: only legal for functions with named results or none
 			if len(x.results) > 0 {
 				var vs []string
 				for _, r := range x.results {
 					vs = append(vs, cname(r))
 				}
-				return x.retTuple(vs)
+				return x.retTuple(x.withTrace(x.loopRet(vs)))
+			}
+			if x.hasActs() && len(x.resTypes) == 0 {
+				return x.retTuple(x.withTrace(x.loopRet(nil)))
 			}
 			fail("function falls off its end")
 		}
@@ -1004,7 +1033,7 @@ func (x *tr) exec(stmts []ast.Stmt, rest [][]ast.Stmt) string {
 					vs = append(vs, cname(r))
 				}
 			}
-			return x.retTuple(vs)
+			return x.retTuple(x.withTrace(x.loopRet(vs)))
 		}
 		if len(s.Results) != len(x.resTypes) {
 			fail("return arity")
@@ -1022,17 +1051,27 @@ func (x *tr) exec(stmts []ast.Stmt, rest [][]ast.Stmt) string {
 				vs = append(vs, x.coerce(x.expr(r), x.resTypes[i]).coq)
 			}
 		}
-		return x.retTuple(vs)
+		return x.retTuple(x.withTrace(x.loopRet(vs)))
 	case *ast.ExprStmt:
-		if isEffectCall(src(x.p.fset, s.X)) {
+		if isEffectCall(src(x.p.fset, s.X)) || x.isTargetEffect(src(x.p.fset, s.X)) {
 			return x.exec(tail, rest)
+		}
+		if ce, ok := s.X.(*ast.CallExpr); ok {
+			if _, ok := x.actCall(ce); ok { // recorded in the action trace (effects.go)
+				return x.exec(tail, rest)
+			}
 		}
 		fail("statement %s", src(x.p.fset, s))
 	case *ast.IncDecStmt:
 		return x.exec(append([]ast.Stmt{desugarIncDec(s)}, tail...), rest)
+	case *ast.BranchStmt:
+		return x.loopBranch(s) // continue / break of a LoopBody target (loopbody.go)
 	case *ast.AssignStmt:
 		if out, ok := x.commaOk(s, tail, rest); ok {
 			return out
+		}
+		if x.opaqueMulti(s) { // effects.go
+			return x.exec(tail, rest)
 		}
 		if len(s.Lhs) != 1 || len(s.Rhs) != 1 {
 			fail("multi-assignment %s", src(x.p.fset, s))
@@ -1118,6 +1157,9 @@ func (x *tr) exec(stmts []ast.Stmt, rest [][]ast.Stmt) string {
 			ifs.Init = nil
 			return x.exec(append([]ast.Stmt{s.Init, &ifs}, tail...), rest)
 		}
+		if d, ok := x.desugarCond(s); ok { // short-circuit order when the right operand performs an action (effects.go)
+			return x.exec(append([]ast.Stmt{d}, tail...), rest)
+		}
 		c := x.expr(s.Cond)
 		if c.typ != "bool" {
 			fail("condition %s is not bool", src(x.p.fset, s.Cond))
@@ -1199,6 +1241,15 @@ func (x *tr) exec(stmts []ast.Stmt, rest [][]ast.Stmt) string {
 		return out
 	case *ast.EmptyStmt:
 		return x.exec(tail, rest)
+	case *ast.RangeStmt:
+		if x.loop.is(s) {
+			return x.loopEnter(s) // the loop of a LoopBody target (loopbody.go)
+		}
+		return x.execLoop(s, tail, rest) // effects.go
+	case *ast.ForStmt:
+		if x.loop.is(s) {
+			return x.loopEnter(s) // the loop of a LoopBody target (loopbody.go)
+		}
 	}
 	fail("statement %s", src(x.p.fset, s))
 	return ""
@@ -1237,7 +1288,7 @@ type outFn struct {
 
 func coqType(t string) string {
 	switch {
-	case isInt(t), t == "error":
+	case isInt(t), t == "error", t == "iface":
 		return "Z"
 	case t == "float64":
 		return "float"
@@ -1285,6 +1336,11 @@ func translate(root *rootT, t target) (def string, info outFn) {
 			x.params[cname(name)] = ty
 			return
 		}
+		if _, ok := te.(*ast.InterfaceType); ok && len(t.Acts) > 0 {
+			x.vars[name] = "iface" // an abstract value id (effects.go)
+			x.params[cname(name)] = "iface"
+			return
+		}
 		x.vars[name] = "ptr:?" // opaque: only usable through hints
 	}
 	if fd.Recv != nil {
@@ -1299,11 +1355,18 @@ func translate(root *rootT, t target) (def string, info outFn) {
 			addVar(n.Name, f.Type)
 		}
 	}
-	if fd.Type.Results == nil {
+	if t.LoopBody > 0 {
+		x.loop = findLoop(fd.Body, t.LoopBody) // loopbody.go
+	}
+	if fd.Type.Results == nil && len(t.Acts) == 0 && x.loop == nil {
 		fail("no results")
 	}
 	var pre string
-	for _, f := range fd.Type.Results.List {
+	var resList []*ast.Field
+	if fd.Type.Results != nil {
+		resList = fd.Type.Results.List
+	}
+	for _, f := range resList {
 		ty := x.typeOfExpr(f.Type)
 		if st := src(p.fset, f.Type); st == "error" || st == "*base.TokenResult" {
 			ty = "error" // 0 = nil, non-zero = a non-nil value
@@ -1351,6 +1414,14 @@ func translate(root *rootT, t target) (def string, info outFn) {
 			rts = append(rts, coqType(ty))
 		}
 	}
+	if x.loop != nil {
+		rts = []string{x.loopType(strings.Join(rts, " * "))} // loopbody.go
+		info.Results = []string{"leaf_flow"}
+	}
+	if len(t.Acts) > 0 {
+		rts = append(rts, "list leaf_act") // the action trace (effects.go)
+		info.Results = append(info.Results, "actions")
+	}
 	rt := strings.Join(rts, " * ")
 	def = fmt.Sprintf("(* %s : %s   parameters: %v *)\nDefinition %s%s : %s :=\n  %s.\n", t.Dir, t.Func, info.Params, t.Name, sig, rt, body)
 	return
@@ -1364,6 +1435,8 @@ func main() {
 	var b strings.Builder
 	b.WriteString("(* GENERATED by translator/leaf from " + *repo + " - do not edit *)\n")
 	b.WriteString("From Coq Require Import ZArith Bool Floats.\nFrom SG Require Import Base.Prelude Base.GoInt Base.GoFloat.\n\n")
+	b.WriteString(effectsPreamble)
+	b.WriteString(loopPreamble)
 	root := &rootT{dir: *repo, pkgs: map[string]*pkgInfo{}}
 	var infos []outFn
 	for _, t := range targets {
